@@ -27,15 +27,18 @@ def main():
     try:
         meta = json.load(open(a.meta))
         env = dict(os.environ, PYTHONPATH=f'{wt}/src', MPLBACKEND='Agg')
-        demo_src = open(a.demo).read()
-        d0 = subprocess.run(['/venv/bin/python', a.demo], env=env, capture_output=True, text=True, cwd=wt)
+        import re
+        demo_src = re.sub(r'/tmp/mutwt/C\d+', wt, open(a.demo).read())     # demos may assert the path of the author's worktree
+        demo_run = os.path.join(wt, '_demo_under_evaluation.py')
+        open(demo_run, 'w').write(demo_src)
+        d0 = subprocess.run(['/venv/bin/python', demo_run], env=env, capture_output=True, text=True, cwd=wt)
         out['demo_clean_exit'] = d0.returncode
         ap_ = sh(f'git -C {wt} apply --3way {os.path.abspath(a.patch)} || git -C {wt} apply {os.path.abspath(a.patch)}')
         out['patch_applies'] = ap_.returncode == 0
         if ap_.returncode != 0:
             out['apply_error'] = ap_.stderr[-500:]
         else:
-            d1 = subprocess.run(['/venv/bin/python', a.demo], env=env, capture_output=True, text=True, cwd=wt)
+            d1 = subprocess.run(['/venv/bin/python', demo_run], env=env, capture_output=True, text=True, cwd=wt)
             out['demo_patched_exit'] = d1.returncode
             out['demo_patched_tail'] = (d1.stdout + d1.stderr)[-400:]
             imp = subprocess.run(['/venv/bin/python', '-c', 'import CircuitCalculator.Circuit.solution, CircuitCalculator.Network.loaders, CircuitCalculator.dump_load'],
